@@ -9,7 +9,7 @@ LEVEL_TEXT = ('exploration: mapping == effective @namespace rules (last declarat
 LEVEL_NOTE = ('bounded, not a proof: three prefixes x two URIs, ten selector shapes (prefix|, *|, |, default, universal, attribute, descendant), five seed states, plus seed sheets whose selectors were written through each of six DOM routes (rule.selectorText, selectorList.selectorText, '
               'Selector.selectorText, appendSelector, item assignment selectorList[i] = text, rule.cssText) with the text alone or as the documented pair (text, {prefix: URI}) carrying a dictionary that '
               'contradicts the sheet (sequences <= 2 quick / <= 3 thorough), plus a pool in which every such write (7 routes x 2 argument forms x 4 selectors) is itself an operation next to the mapping edits '
-              '(sequences <= 2 quick / <= 3 thorough; a Selector object as argument is outside the bound); sequences are merged '
+              '(sequences <= 2 quick / <= 3 thorough; a Selector object as argument is outside the bound), plus 144 seed sheets whose TEXT carries the namespace history - five declaration patterns (a prefix / the default namespace declared twice, around another declaration, twice with one URI, once) x every subset of the comment positions inside the first @namespace rule x later rules bare / commented x URI as string / url() - (sequences <= 1 quick / <= 2 thorough; the 20 with a comment at every position <= 2 / <= 3); sequences are merged '
               'when they reach the same observable state; expected pairs come from the construction of the selector text and the effective @namespace rules at the moment of writing; '
               'random walks (thorough only) are samples. Twelve recorded findings are excluded by sharp classes (known/C15.json)')
 TECHNIQUE = ('bounded run-time contracts over exhaustively enumerated histories of namespace operations on the real CSSStyleSheet.namespaces / CSSNamespaceRule / Selector objects '
